@@ -124,7 +124,7 @@ def check(prop_id, clean=False, coqchk=False):
     res = dict(obligations=0, discharged=0, names=[], stmts={}, assumptions={}, problems=[], checker_cmd="")
     files = prop_files(prop_id)
     targets = ["Props/%s.vo" % f for f in files]
-    res["checker_cmd"] = "cd coq && make -j16 %s  (coq_makefile, coqc 8.16.1; Print Assumptions under every theorem)" % " ".join(targets)
+    res["checker_cmd"] = "cd coq && make -j16 Run/*.vo %s && coqc -Q . HDW -o <tmp>.vo Props/<file>.v for each (coq_makefile, coqc 8.16.1; Print Assumptions under every theorem)" % " ".join(targets)
     if not files or prop_id not in files:
         res["problems"].append("no Props/%s.v" % prop_id)
         return res
@@ -142,23 +142,31 @@ def check(prop_id, clean=False, coqchk=False):
         for n in names:
             if n not in printed:
                 res["problems"].append("theorem %s has no Print Assumptions" % n)
-        # force recompilation of the property file so that its output is captured
-        for ext in (".vo", ".glob", ".vos", ".vok"):
-            p = os.path.join(COQ, "Props", f + ext)
-            if os.path.exists(p):
-                os.remove(p)
+    # 1. bring the shared .vo files up to date (model, proofs, drivers, the property files themselves); nothing is ever
+    #    deleted there, so concurrently running checks do not disturb each other (make runs under a file lock)
     run_dir = os.path.join(COQ, "Run")
     drivers = ["Run/%s" % x[:-2] + ".vo" for x in sorted(os.listdir(run_dir)) if x.endswith(".v")]
-    ok, text = build.coq_make(drivers, timeout=3000)
+    ok, text = build.coq_make(drivers + targets, timeout=3000)
     if not ok:
-        res["problems"].append("the model / drivers do not compile: " + _first_error(text))
+        res["problems"].append("proof obligations do not compile: " + _first_error(text))
         res["log"] = text[-6000:]
         return res
+    # 2. re-check each property file into a private output file to capture its Print Assumptions
+    import uuid
+    from common import CACHE
+    outdir = os.path.join(CACHE, "props")
+    os.makedirs(outdir, exist_ok=True)
     logs = []
     for f in files:
-        ok, text = build.coq_make(["Props/%s.vo" % f], jobs=NCPU_PROOF)
+        tdir = os.path.join(outdir, uuid.uuid4().hex[:10])
+        os.makedirs(tdir, exist_ok=True)
+        tmp = os.path.join(tdir, f + ".vo")
+        rc, out, err = sh(["coqc", "-noglob", "-Q", COQ, "HDW", "-w", "none", "-o", tmp, os.path.join(COQ, "Props", f + ".v")], timeout=1800)
+        text = out.decode("utf8", "replace") + err.decode("utf8", "replace")
+        import shutil
+        shutil.rmtree(tdir, ignore_errors=True)
         logs.append(text[-3000:])
-        if not ok:
+        if rc != 0:
             res["problems"].append("proof obligations do not compile: " + _first_error(text))
             continue
         names, printed = per_file[f]
